@@ -23,7 +23,8 @@ RULE = ("valid sequential plans (random walks through the reference's applicable
         "generated multi-agent STRIPS and numeric domains with 2-4 agents (every action's first parameter is its "
         "agent; shared 0-ary and constant-argument atoms make interference possible), with and without the "
         "shared-object concurrency constraint, in both plan-file layouts ('(a x)' and '3: (a x)').  Non-trivial = the "
-        "result has a step with >= 2 members and another with exactly 1.  Distinct by (domain, problem, plan, switch).")
+        "result has a step with >= 2 members and another with exactly 1.  With the constraint on, members of a step "
+        "must not share an argument (the documented meaning of the switch).  Distinct by (domain, problem, plan, switch).")
 ASSUMPTIONS = ["plans whose reference execution is undefined at some step (conflicting effects, division by zero) are not generated",
                "non-interference is decided semantically: every order of a step's members is executable and all reach one state"]
 
@@ -151,7 +152,18 @@ def check_case(case):
         if all(m[0] == "nop" for m in s):
             res.bad("C15/slots/empty-step", {**info, "step": i})
             return res
-    # (1) conservation
+    # (3b) the documented meaning of the switch: with the concurrency constraint on, no object (agents included)
+    #      is an argument of two members of one step
+    if strict:
+        for i, s_ in enumerate(steps):
+            members = [m for m in s_ if m[0] != "nop"]
+            for x in range(len(members)):
+                for y in range(x + 1, len(members)):
+                    common = sorted(set(members[x][1:]) & set(members[y][1:]))
+                    if common:
+                        res.bad("C15/concurrency-constraint/members-share-object",
+                                {**info, "step": i, "members": [members[x], members[y]], "shared": common})
+                        return res
     flat = [m for s in steps for m in s if m[0] != "nop"]
     if sorted(map(tuple, flat)) != sorted(tuple(x.lower() for x in s) for s in plan):
         res.bad("C15/conservation", {**info, "lost": [list(x) for x in set(map(tuple, plan)) - set(map(tuple, flat))],
